@@ -130,11 +130,11 @@ theorem c20_delivery_set_partial (c : Nat) (a : Bytes) (subs : List (SubId × Li
         simp only [List.count_append, List.count_replicate, beq_iff_eq, hne, if_false, Nat.zero_add]
         exact ih3 id hid.2
 
-/-- What the code does with an **undecodable** VAA: it returns an error iff some subscription has filters, and it
-has then served exactly the unfiltered subscriptions that precede the first filtered one in map order (so which
-unfiltered subscribers see the bytes depends on Go's random map iteration order). -/
+/-- What the code does with an **undecodable** VAA (e.g. what `Marshal` writes for an empty payload): it returns an error
+iff some subscription has filters, and it serves exactly the subscriptions without filters, once each, whatever the map
+order. -/
 theorem c20_undecodable (subs : List (SubId × List Filter)) :
-    (sends none subs).1 = (subs.takeWhile (·.2.isEmpty)).map (·.1) ∧
+    (sends none subs).1 = (subs.filter (·.2.isEmpty)).map (·.1) ∧
     (sends none subs).2 = subs.any (fun p => !p.2.isEmpty) := by
   induction subs with
   | nil => simp [sends]
@@ -142,7 +142,47 @@ theorem c20_undecodable (subs : List (SubId × List Filter)) :
     obtain ⟨pid, pfs⟩ := p
     by_cases he : pfs.isEmpty = true
     · simp [sends, he, ih.1, ih.2]
-    · simp [sends, he]
+    · simp [sends, he, ih.1]
+
+/-- The statement's first sentence for subscribers **without filters** needs no decoding: whatever `vaa.Unmarshal` makes of
+the published bytes, one `Publish` sends exactly one copy to every filter-less subscription (distinct ids = map keys). -/
+theorem c20_unfiltered_always_served (d : Decoded) (subs : List (SubId × List Filter))
+    (hnd : (subs.map (·.1)).Nodup) (id : SubId) (h : (id, []) ∈ subs) :
+    (sends d subs).1.count id = 1 := by
+  cases d with
+  | some ca =>
+    obtain ⟨c, a⟩ := ca
+    have := (c20_delivery_set_partial c a subs hnd).2.1 id [] h
+    simpa [copies] using this
+  | none =>
+    rw [(c20_undecodable subs).1]
+    induction subs with
+    | nil => simp at h
+    | cons p rest ih =>
+      obtain ⟨pid, pfs⟩ := p
+      simp only [List.map_cons, List.nodup_cons] at hnd
+      simp only [List.mem_cons] at h
+      rcases h with h | h
+      · have e1 : pid = id := (Prod.mk.inj h).1.symm
+        have e2 : pfs = [] := (Prod.mk.inj h).2.symm
+        subst e1 e2
+        have hnot : pid ∉ (rest.filter (·.2.isEmpty)).map (·.1) := by
+          intro hm
+          apply hnd.1
+          simp only [List.mem_map, List.mem_filter] at hm ⊢
+          obtain ⟨x, hx, hxe⟩ := hm
+          exact ⟨x, hx.1, hxe⟩
+        simp [List.count_eq_zero_of_not_mem hnot]
+      · have hne : pid ≠ id := by
+          intro e
+          apply hnd.1
+          simp only [List.mem_map]
+          exact ⟨(id, []), h, e.symm⟩
+        by_cases he : pfs.isEmpty = true
+        · simp [he, hne, ih hnd.2 h]
+        · simp [he, ih hnd.2 h]
+
+example : (sends none [(0, [⟨1, [7]⟩]), (1, []), (2, [⟨2, [8]⟩]), (3, [])]) = ([1, 3], true) := by decide
 
 /-! ## Histories -/
 
